@@ -372,7 +372,8 @@ class CSSSerializer(object):
             return actual
 
     def _linenumbers(self, text):
-        if self.prefs.lineNumbers:
+        # (without a line separator there are no lines to number)
+        if self.prefs.lineNumbers and self.prefs.lineSeparator:
             pad = len(str(text.count(self.prefs.lineSeparator)+1))
             out = []
             for i, line in enumerate(text.split(self.prefs.lineSeparator)):
